@@ -34,6 +34,8 @@ func main() {
 		err = l1Conc(os.Args[2:])
 	case "l1-nonce":
 		err = l1Nonce(os.Args[2:])
+	case "pull-run":
+		err = pullRun(os.Args[2:])
 	case "adm-run":
 		err = admRun(os.Args[2:])
 	case "crash-run":
@@ -706,5 +708,100 @@ func admRun(args []string) error {
 	}
 	events += n
 	fmt.Printf("{\"traces\":%d,\"events\":%d}\n", traces+2, events)
+	return nil
+}
+
+
+// pull-run: lease-heavy driver schedules executed THROUGH the pull API (HTTP + gRPC) of production-wired instances.
+func pullRun(args []string) error {
+	fs := flag.NewFlagSet("pull-run", flag.ExitOnError)
+	seed := fs.Int64("seed", 1, "seed")
+	n := fs.Int("n", 20, "schedules")
+	ops := fs.Int("ops", 60, "operations per schedule")
+	out := fs.String("out", "pull-trace", "trace output prefix")
+	shards := fs.Int("shards", 1, "trace files")
+	bigEvery := fs.Int("big-every", 0, "every k-th schedule: max_batch 250 with a population of 300 ready messages")
+	scratch := fs.String("scratch", "", "scratch dir")
+	_ = fs.Parse(args)
+	sd := scratchDir(*scratch)
+	if *scratch == "" {
+		defer os.RemoveAll(sd)
+	}
+	r := rand.New(rand.NewSource(*seed))
+	type job struct {
+		name string
+		o    l1.PullOpts
+		ops  []l0.Op
+		seed int64
+	}
+	var jobs []job
+	for i := 0; i < *n; i++ {
+		o := l1.PullOpts{Backend: []string{"memory", "sqlite"}[i%2], MaxBatch: []int{1, 3, 7, 100}[r.Intn(4)], DefTTL: []int{20, 50, 30000}[r.Intn(3)],
+			MaxTTL: []int{0, 0, 60}[r.Intn(3)], Cache: []string{"forever", "forever", "never"}[r.Intn(3)], GRPCPct: []int{0, 30, 100}[r.Intn(3)]}
+		if o.MaxTTL > 0 && o.DefTTL > o.MaxTTL {
+			o.DefTTL = o.MaxTTL
+		}
+		s := l0.GenSchedule(r, fmt.Sprintf("pull-s%d-%04d", *seed, i), l0.Cfg{}, l0.DriverOpts{Ops: *ops, IDs: 6, Routes: 2, Targets: 1, Profile: "lease"})
+		opsList := s.Ops
+		if *bigEvery > 0 && i%*bigEvery == *bigEvery-1 {
+			// the configured cap must be honoured: try a cap above the stores' own limit first (Compile has to refuse it,
+			// otherwise the run checks min(batch, ready) against it), then the largest accepted one
+			o.MaxBatch = 250
+			if !l1.PullConfigCompiles(o) {
+				o.MaxBatch = 100
+			}
+			var envs []l0.EnvSpec
+			for k := 0; k < 95; k++ {
+				envs = append(envs, l0.EnvSpec{ID: fmt.Sprintf("b%03d", k), Rt: "/r1", Tg: "pull", Pl: "a"})
+			}
+			pre := []l0.Op{}
+			for b := 0; b < 3; b++ {
+				chunk := make([]l0.EnvSpec, len(envs))
+				for k := range envs {
+					chunk[k] = envs[k]
+					chunk[k].ID = fmt.Sprintf("b%d-%03d", b, k)
+				}
+				pre = append(pre, l0.Op{Op: "EnqueueBatch", Envs: chunk})
+			}
+			pre = append(pre, l0.Op{Op: "Dequeue", Rt: "/r1", Batch: 250, TTL: 50}, l0.Op{Op: "Dequeue", Rt: "/r1", Batch: 120, TTL: 50})
+			opsList = append(pre, opsList[:10]...)
+		}
+		jobs = append(jobs, job{s.Name + "/" + o.Backend, o, opsList, r.Int63()})
+	}
+	files := make([]*os.File, *shards)
+	for i := range files {
+		f, err := os.Create(fmt.Sprintf("%s.%d", *out, i))
+		if err != nil {
+			return err
+		}
+		defer f.Close()
+		files[i] = f
+	}
+	var wg sync.WaitGroup
+	errs := make([]error, *shards)
+	counts := make([]int, *shards)
+	for i := 0; i < *shards; i++ {
+		wg.Add(1)
+		go func(i int) {
+			defer wg.Done()
+			for k := i; k < len(jobs); k += *shards {
+				nl, err := l1.RunPull(files[i], sd, jobs[k].name, jobs[k].o, jobs[k].ops, jobs[k].seed)
+				if err != nil {
+					errs[i] = fmt.Errorf("%s: %w", jobs[k].name, err)
+					return
+				}
+				counts[i] += nl
+			}
+		}(i)
+	}
+	wg.Wait()
+	events := 0
+	for i := range errs {
+		if errs[i] != nil {
+			return errs[i]
+		}
+		events += counts[i]
+	}
+	fmt.Printf("{\"traces\":%d,\"events\":%d}\n", len(jobs), events)
 	return nil
 }
